@@ -423,8 +423,9 @@ def run_property(pid, tier, seed, only=None, jobs=None, verbose=False):
         "assumptions": meta.get("assumptions", []),
         "wall_s": round(time.time() - t0, 2), "violations": len(violations),
     }
-    os.makedirs(os.path.join(VERIF, "evidence"), exist_ok=True)
-    with open(os.path.join(VERIF, "evidence", pid + ".json"), "w") as f:
+    evdir = os.environ.get("VERIF_EVIDENCE_DIR") or os.path.join(VERIF, "evidence")  # (override: used when trying seeded changes)
+    os.makedirs(evdir, exist_ok=True)
+    with open(os.path.join(evdir, pid + ".json"), "w") as f:
         json.dump(evidence, f, indent=1, default=str)
     print("%s tier=%s obligations=%d claims=%d held=%d violations=%d known=%d inconclusive=%d paths=%d queries=%d solver=%.1fs wall=%.1fs" % (
         pid, tier, len(obs), n_claims, n_held, len(violations), len(known_hits), len(inconclusive), paths, total_queries, solver_s, time.time() - t0))
